@@ -1169,8 +1169,19 @@ class ConeBeamGeometry(DivergentBeamGeometry, AxisOrientedGeometry):
 
     @property
     def det_curvature_radius(self):
-        """Detector curve radius of this geometry."""
-        return getattr(self.detector, 'radius', None)
+        """Detector curvature radii of this geometry.
+
+        Either ``None`` for a flat detector, or a 2-tuple as accepted by
+        the constructor: ``(radius, None)`` for a cylindrical and
+        ``(radius, radius)`` for a spherical detector.
+        """
+        radius = getattr(self.detector, 'radius', None)
+        if radius is None:
+            return None
+        elif isinstance(self.detector, SphericalDetector):
+            return (radius, radius)
+        else:
+            return (radius, None)
 
     @property
     def pitch(self):
